@@ -360,6 +360,20 @@ def lexerr_obligations(rep):
         if isinstance(x, ast.BinOp) and isinstance(x.op, (ast.Add, ast.Sub)):
             a, b = term(x.left), term(x.right)
             return a + b if isinstance(x.op, ast.Add) else a - b
+        if isinstance(x, ast.UnaryOp) and isinstance(x.op, ast.USub):
+            return -term(x.operand)
+        if isinstance(x, ast.Call) and isinstance(x.func, ast.Name) and x.func.id in ('max', 'min') and len(x.args) >= 2 and not x.keywords:
+            ts = [term(a_) for a_ in x.args]
+            acc = ts[0]
+            for t_ in ts[1:]:
+                acc = z3.If(t_ > acc, t_, acc) if x.func.id == 'max' else z3.If(t_ < acc, t_, acc)
+            return acc
+        if isinstance(x, ast.IfExp) and isinstance(x.test, ast.Compare) and len(x.test.ops) == 1:
+            a, b = term(x.test.left), term(x.test.comparators[0])
+            op = x.test.ops[0]
+            c = {ast.Lt: a < b, ast.LtE: a <= b, ast.Gt: a > b, ast.GtE: a >= b, ast.Eq: a == b, ast.NotEq: a != b}.get(type(op))
+            if c is not None:
+                return z3.If(c, term(x.body), term(x.orelse))
         raise Unsupported(ast.unparse(x))
     try:
         lo, hi = term(sl.lower), term(sl.upper)
